@@ -170,6 +170,8 @@ pub struct ScriptReader {
     pos: usize,
     call: usize,
     frag: Frag,
+    /// counts read calls (shared with the creator)
+    pub counter: Option<Arc<std::sync::atomic::AtomicUsize>>,
 }
 
 impl ScriptReader {
@@ -179,7 +181,12 @@ impl ScriptReader {
             pos: 0,
             call: 0,
             frag,
+            counter: None,
         }
+    }
+    pub fn counted(mut self, c: &Arc<std::sync::atomic::AtomicUsize>) -> Self {
+        self.counter = Some(c.clone());
+        self
     }
 }
 
@@ -206,6 +213,9 @@ impl Read for ScriptReader {
     fn read(&mut self, buf: &mut [u8]) -> io::Result<usize> {
         let call = self.call;
         self.call += 1;
+        if let Some(c) = &self.counter {
+            _ = c.fetch_add(1, std::sync::atomic::Ordering::Relaxed);
+        }
         let want = buf.len().min(self.data.len() - self.pos);
         match frag_limit(&self.frag, call, want) {
             Err(()) => Err(io::Error::new(io::ErrorKind::Interrupted, "scripted interrupt")),
